@@ -29,7 +29,10 @@ func scenarioOddTargets(c *vrun.Ctx) {
 		"FOO http://o.test/x HTTP/1.1", "GET http://o.test/x HTTP/1.0", "get http://o.test/x HTTP/1.1", "GET ftp://o.test/x HTTP/1.1", "GET http://user:pw@o.test/x HTTP/1.1",
 		"DELETE http://o.test HTTP/1.1", "POST http://o.test HTTP/1.1",
 	}
-	hosts := []string{"o.test", "", "O.TEST", "o.test:", "o.test:99999", "[::1]", "a b"}
+	hosts := []string{"o.test", "", "O.TEST", "o.test:", "o.test:99999", "[::1]", "a b",
+		// brackets, zones and percent signs in every order (net/http lets all of these through to the handler)
+		"[::1]:80", "[::1%25lo]:80", "[fe80::1%eth0]:8080", "[::1]%x", "[::1]:80%", "[fe80::1]:8080%", "[::1]%25eth0", "[%]", "]%[", "[]", "[", "]", "%", "%25", "o.test%", "[::1]]", "[[::1]]", "[::1]:",
+		"o.test:0", "o.test:-1", "o.test:80:80", ".", "..", "-", "o..test", strings.Repeat("a", 300) + ".test", "xn--", "1.2.3.4.5", "0x7f.1", "1.2.3.4:80", "[1.2.3.4]", "user@o.test", "o.test/path", "o.test?x", "o.test#f"}
 	i := 0
 	for _, l := range lines {
 		for hi, h := range hosts {
